@@ -327,8 +327,15 @@ def run(tier, seed):
     extra = {'PropsData.tla': data_module()}
     cfg = ('SPECIFICATION Spec\nCONSTANTS\n MaxVal = %d\nINVARIANT NeverRevealed\nINVARIANT SignalOnlyIfDeclared\n'
            'PROPERTY ReadOnlyStable\nCHECK_DEADLOCK FALSE\n')
-    mv = 2 if thorough else 1
-    res, g = tlc.dump_graph('Props', 'p.cfg', extra=dict(extra, **{'p.cfg': cfg % mv}), timeout=600)
+    mv = 1
+    if thorough:
+        # three values per property: checked by TLC (no graph: with eight declarations it has tens of millions of edges);
+        # the graph that is replayed is the two-valued one in both tiers
+        res3, _ = tlc.run('Props', 'p3.cfg', extra=dict(extra, **{'p3.cfg': cfg % 2}), timeout=3000)
+        chk.tlc_stats(res3, 'Props: 8 declarations, values 0..2, all histories (checked, not dumped)')
+        if not res3.ok:
+            chk.violation('model: Props(0..2) %s %s' % res3.violation, dict(kind='TLC', trace=repr(res3.trace[-2:])))
+    res, g = tlc.dump_graph('Props', 'p.cfg', extra=dict(extra, **{'p.cfg': cfg % mv}), timeout=900)
     chk.tlc_stats(res, 'Props: 8 declarations, values 0..%d, all histories' % mv)
     if not res.ok:
         chk.violation('model: Props %s %s' % res.violation, dict(kind='TLC', trace=repr(res.trace[-2:])))
